@@ -419,11 +419,10 @@ def resolve_strategy_remove_outputs(base_path, outputs, decisions):
         else:
             # Replace all decisions affecting key with resolution
             local_diff, remote_diff = collect_diffs(base_path, decs)
-            if (
-                len(local_diff) == len(remote_diff) == 1 and
-                local_diff[0].op == remote_diff[0].op == DiffOp.ADDRANGE
-            ):
-                # remove in add vs add is a no-op
+            if all(e.op == DiffOp.ADDRANGE for e in chain(local_diff, remote_diff)):
+                # remove in add vs add is a no-op (also when the insertions
+                # were split into several entries): there is no base output
+                # involved, and possibly none at all at this index
                 custom_diff = []
             else:
                 custom_diff = [op_removerange(key, 1)]
